@@ -71,7 +71,20 @@ fn inspect(acc: &mut Acc, case: &Case, buf: &[u8], sub: &str) {
             let _ = real::msg_attribute(&msg, k, 0);
         });
     }
-    for (i, c) in [Creds::Short("".into()), Creds::Short("pw".into()), Creds::Long { user: "u".into(), realm: "r".into(), pass: "p".into() }, Creds::Long { user: "".into(), realm: "".into(), pass: "".into() }, Creds::Short(String::from_utf8(engine_in::KEY.to_vec()).unwrap())].iter().enumerate() {
+    let lt = |u: &str, r: &str, p: &str| Creds::Long { user: u.into(), realm: r.into(), pass: p.into() };
+    let mut cred_list = vec![Creds::Short("".into()), Creds::Short("pw".into()), lt("u", "r", "p"), lt("", "", ""), Creds::Short(String::from_utf8(engine_in::KEY.to_vec()).unwrap())];
+    // "arbitrary credentials": each part of a long-term credential and the short-term password take
+    // every decorated / degenerate text (a lone quote, quotes only, blanks only, NUL, colon, a
+    // multi-byte character alone, 1000 bytes)
+    let long = "x".repeat(1000);
+    let sealed_msg = msg.has_attribute(AttributeType::new(0x0008)) || msg.has_attribute(AttributeType::new(0x001C));
+    for t in if !sealed_msg { vec![] } else { vec!["\"", "\"\"", " \" ", "\t\"\r\n", "\"a", "a\"", " ", "\0", ":", "::", "\u{e9}", "\u{1F600}", "\\", "%", long.as_str()] } {
+        cred_list.push(lt(t, "r", "p"));
+        cred_list.push(lt("u", t, "p"));
+        cred_list.push(lt("u", "r", t));
+        cred_list.push(Creds::Short(t.into()));
+    }
+    for (i, c) in cred_list.iter().enumerate() {
         let _ = i;
         probe!(acc, case, &format!("validate_integrity{sub}"), {
             let _ = msg.validate_integrity(&real::creds(c));
